@@ -133,6 +133,21 @@ func runSolverRaw(sc SolverCfg, script string, ms int, dir, tag string, wall tim
 }
 
 // parseAnswers extracts the sequence of check-sat answers.
+// scriptError: the first error line that is not a timeout/interrupt or the harmless "model is not available".
+func scriptError(out string) string {
+	for _, l := range strings.Split(out, "\n") {
+		l = strings.TrimSpace(l)
+		if !strings.HasPrefix(l, "(error") {
+			continue
+		}
+		if strings.Contains(l, "model is not available") || strings.Contains(l, "interrupted") || strings.Contains(l, "canceled") || strings.Contains(l, "timeout") {
+			continue
+		}
+		return l
+	}
+	return ""
+}
+
 func parseAnswers(out string) []string {
 	var res []string
 	for _, l := range strings.Split(out, "\n") {
@@ -248,8 +263,22 @@ func solveScript(e *Enc, script string, opts SolveOpts, stats *SolveStats) {
 	out, sec, _ := runSolver(solvers[0], script, opts.PrimaryMs, opts.WorkDir, tag, wall)
 	stats.add(solvers[0].Name, sec)
 	ans := parseAnswers(out)
-	// an error line aborts the mapping: everything from the first error on is undecided
+	// Answers are mapped to obligations by position. An error reported for any other command of the script (a
+	// malformed assertion, an undeclared symbol) would shift that mapping and drop a hypothesis silently:
+	// fail closed, nothing of this script counts as decided.
+	if msg := scriptError(out); msg != "" {
+		for _, ob := range e.obs {
+			ob.Result = "error"
+			ob.Model = msg
+			ob.Solver = solvers[0].Name
+		}
+		e.note("solver reported an error in the script of %s: %s", e.name, msg)
+		ans = nil
+	}
 	for i, ob := range e.obs {
+		if ob.Result == "error" && ans == nil {
+			continue
+		}
 		r := "unknown"
 		if i < len(ans) {
 			r = ans[i]
@@ -477,6 +506,10 @@ func solveSubset(e *Enc, sel []*Obligation, opts SolveOpts) {
 	}
 	out, _, _ := runSolver(solvers[0], script, opts.PrimaryMs, opts.WorkDir, tag, time.Duration(opts.PrimaryMs*len(sel)+5000)*time.Millisecond)
 	ans := parseAnswers(out)
+	if msg := scriptError(out); msg != "" {
+		ans = nil // positions are unreliable after an error (see solveScript): nothing is decided
+		e.note("solver reported an error in the script of %s: %s", e.name, msg)
+	}
 	for i, ob := range sel {
 		ob.Result = "unknown"
 		if i < len(ans) {
